@@ -12,9 +12,10 @@ EXTENDS Integers, Sequences, Report, IOUtils
 (* the stage modules are used for their constant-level operators only *)
 F == INSTANCE Ps2Frame WITH bits <- <<>>, fout <- <<"none">>
 CheckWord(w) == F!CheckWord(w)
-(* what the real Set 2 decoder, fresh, returns for each byte (state 1 of its extracted graph): *)
-(* Keyboard::add_word must hand an accepted byte to the scancode stage - which key that is    *)
-(* belongs to C01, not to this check.                                                         *)
+(* what the same fresh Keyboard returns when the byte is given to add_byte directly (state 1 of *)
+(* the graph extracted from Keyboard::add_byte): Keyboard::add_word must treat an accepted      *)
+(* frame's byte exactly as add_byte treats that byte - which key that is belongs to C01, and    *)
+(* whether add_byte itself is wired correctly belongs to C18, not to this check.               *)
 G2 == ndJsonDeserialize(IOEnv.GRAPH2)
 
 W == ndJsonDeserialize(IOEnv.WORDS)
